@@ -105,15 +105,38 @@ fn monitor_for(prop: &str) -> Option<Box<dyn NodeMon>> {
     })
 }
 
+/// Inputs kept from coverage-guided runs of the `play` target against the unchanged library: each
+/// reaches some branch combination the fuzzer found worth keeping.  They are replayed (natively, with
+/// the property's own monitor) in the quick tier as a cheap stand-in for the fuzzing campaign itself.
+pub fn stored_corpus() -> Vec<&'static [u8]> {
+    static RAW: &[u8] = include_bytes!("../play_corpus.bin");
+    let mut v = vec![];
+    let mut i = 0;
+    while i < RAW.len() {
+        let n = RAW[i] as usize;
+        if i + 1 + n > RAW.len() {
+            break;
+        }
+        v.push(&RAW[i + 1..i + 1 + n]);
+        i += 1 + n;
+    }
+    v
+}
+
 /// one fuzz input; violations are left in `rep`
 pub fn run(prop: &str, data: &[u8], rep: &mut Report) {
+    let mut mon = match monitor_for(prop) {
+        Some(m) => m,
+        None => return,
+    };
+    run_with(mon.as_mut(), data, rep, true);
+}
+
+/// the same, with a caller-supplied monitor; `stop_at_first` ends the input at the first violation
+pub fn run_with(mon: &mut dyn NodeMon, data: &[u8], rep: &mut Report, stop_at_first: bool) {
     let mut bytes = Bytes { d: data, i: 0 };
     let start0 = match decode_start(&mut bytes) {
         Some(s) => s,
-        None => return,
-    };
-    let mut mon = match monitor_for(prop) {
-        Some(m) => m,
         None => return,
     };
     // the recipe's prelude is played through the library like any other choice
@@ -139,9 +162,10 @@ pub fn run(prop: &str, data: &[u8], rep: &mut Report) {
             let n = Node { b: &b, p: &p, legal: &legal, ply, prev: prev.as_ref().map(|(pb, pp, m)| (pb, pp, *m)), after_null: false, tag: "fuzz", incremental: ply > 0, diverged: false };
             mon.node(&n, rep, &mut rng);
         }
-        if rep.total_violations() > 0 || bytes.left() == 0 {
+        if (stop_at_first && rep.total_violations() > 0) || bytes.left() == 0 {
             return;
         }
+        rep.count("ev_fuzz_corpus_nodes");
         let choices: Vec<RMove> = if follow { crate::conv::lib_moves(&b).into_iter().map(crate::conv::model_move).collect() } else { legal.clone() };
         if choices.is_empty() {
             return;
